@@ -145,7 +145,7 @@ func init() {
 		members := map[string]int{}
 		modelCmp, drift, driftEx := map[string]int{}, map[string]int{}, map[string][]string{}
 		gr := generalRuns()
-		fams := []famRun{famRunOf("Timing", sizeForTier()), gr[0], gr[1], gr[len(gr)-1], famRunOf("MemWalk", "small"), famRunOf("LineFill", "small"), famRunOf("Repo", sizeForTier()), famRunOf("Misaligned", "small")}
+		fams := []famRun{famRunOf("Timing", sizeForTier()), gr[0], gr[1], gr[len(gr)-1], famRunOf("MemWalk", "small"), famRunOf("LineFill", "small"), famRunOf("Repo", sizeForTier()), famRunOf("Misaligned", "small"), famRunOf("FarChain", "small"), famRunOf("FarBack", "small"), famRunOf("EndAt", "small")}
 		seqOnly := []Config{{Variant: "mvp1", Par: 1}, {Variant: "mvp2", Par: 1}, {Variant: "mvp3", Par: 1}}
 		cfgsFor := func(c *ProgCase) []Config {
 			if c.Fam == "MemWalk" || c.Fam == "Misaligned" { // long walks / accesses that are not naturally aligned: only the variants with an exact ledger (cache evictions in MVP-3)
